@@ -52,6 +52,7 @@ CONSTANTS Labs,      \* series label identities, e.g. {"a","b"}
           Acts,      \* enabled actions
           Script,    \* sequence of sets of action names: step i may only take an action of Script[i]
                      \* (scenario skeleton; <<>> = unconstrained)
+          PreCuts,   \* numbers of extra (empty) segments cut right before a truncation (WAL growth since)
           MetaOrds,  \* subset of {"asc","desc"}: order of the checkpoint's metadata record (Go map order)
           EmitMode   \* "class" | "all" | "none"
 
@@ -96,7 +97,7 @@ UpdExp(f, id, until) == SetF(f, id, Max2(until, IF id \in DOMAIN f THEN f[id] EL
 -----------------------------------------------------------------------------
 (* Replay = Head.Init(minValidTime = Tm) over a sequence of entries.        *)
 
-RP0 == [hs |-> {}, exp |-> <<>>, multi |-> <<>>, ex |-> {}, tb |-> {}, lastRef |-> 0, unk |-> 0,
+RP0 == [hs |-> {}, exp |-> <<>>, multi |-> <<>>, ex |-> {}, racy |-> {}, tb |-> {}, lastRef |-> 0, unk |-> 0,
         lo |-> INF, hi |-> NEG]
 
 MapRef(st, r) == IF r \in DOMAIN st.multi THEN st.multi[r] ELSE r
@@ -127,7 +128,12 @@ Step(st, e, Tm) ==
                     ss == {s \in st0.hs : s.ref = r} IN
                 IF ss = {} THEN st0
                 ELSE LET s == CHOOSE x \in ss : TRUE IN
+                     \* loadWAL hands exemplars to a separate goroutine that looks the series up by ref
+                     \* while deleteSeriesByID runs on a sample processor: whether an earlier exemplar of
+                     \* this series is still added is a race in the code -> not compared ("racy")
                      [st0 EXCEPT !.hs = @ \ {s},
+                                 !.racy = @ \cup {x \in st0.ex : x.lab = s.lab},
+                                 !.ex = {x \in @ : x.lab # s.lab},
                                  !.exp = IF s.smp = {} THEN @ ELSE UpdExp(@, s.ref, SMax(s)),
                                  !.tb = {x \in @ : x.ref # s.ref}]
            ELSE IF e.t2 < Tm THEN st0
@@ -163,7 +169,7 @@ Finish(st) ==
   IN [hs |-> rest,
       exp |-> [r \in DOMAIN st.exp \cup dr |-> IF r \in dr THEN actual ELSE st.exp[r]],
       tb |-> {x \in st.tb : x.ref \notin dr /\ x.hi >= gcMint},
-      ex |-> st.ex, lastRef |-> st.lastRef, unk |-> st.unk,
+      ex |-> st.ex, racy |-> st.racy, lastRef |-> st.lastRef, unk |-> st.unk,
       inited |-> ini, hmin |-> st.lo, hmax |-> st.hi]
 
 Replay(es, Tm) == Finish(RPFold(RP0, es, 1, Tm))
@@ -171,24 +177,24 @@ Replay(es, Tm) == Finish(RPFold(RP0, es, 1, Tm))
 Cov(tb, ref, t) == \E x \in tb : x.ref = ref /\ x.lo <= t /\ t <= x.hi
 
 \* what is observable of a replayed head at or after Tm
-Content(fin, Tm) ==
+Content(fin, Tm, ign) ==
   LET ser(l) == {s \in fin.hs : s.lab = l} IN
   [smp  |-> [l \in Labs |-> UNION {{p \in s.smp : p[1] >= Tm /\ ~Cov(fin.tb, s.ref, p[1])} : s \in ser(l)}],
    del  |-> [l \in Labs |-> UNION {{t \in Tm..(MaxT + 3) : Cov(fin.tb, s.ref, t)} : s \in ser(l)}],
    meta |-> [l \in Labs |-> IF ser(l) = {} THEN 0 ELSE (CHOOSE s \in ser(l) : TRUE).meta],
-   ex   |-> fin.ex]
+   ex   |-> fin.ex \ ign]
 
 \* scenario skeletons for the Script constant (cfg: Script <- Name)
 NoScript == <<>>
 \* churn, restart with a duplicate series record, then checkpoints
-ScriptDup == <<{"Scrape"}, {"Scrape"}, {"Truncate", "Evict"}, {"Scrape"}, {"Restart"}, {"Scrape", "Meta"},
-               {"Scrape", "Truncate"}, {"Truncate", "Restart"}, {"Truncate", "Restart"}>>
+ScriptDup == <<{"Scrape"}, {"Scrape"}, {"Truncate", "Evict"}, {"Scrape"}, {"Restart"}, {"Scrape", "Meta", "Truncate"},
+               {"Truncate", "Restart"}, {"Truncate", "Restart"}>>
 \* side records (exemplar / metadata / tombstone) of a series that is then dropped or duplicated
-ScriptSide == <<{"Scrape"}, {"Exemplar", "Meta", "Delete"}, {"Scrape"}, {"Scrape", "Evict"}, {"Truncate"},
-                {"Scrape", "Restart"}, {"Truncate", "Restart"}, {"Truncate"}>>
+ScriptSide == <<{"Scrape"}, {"Exemplar", "Meta", "Delete"}, {"Scrape", "Meta", "Exemplar"}, {"Scrape", "Evict", "Truncate"},
+                {"Truncate", "Restart"}, {"Scrape", "Restart"}, {"Truncate"}>>
 \* the highest ref expires, restart, a new series: ref reuse (KF-C15-4)
-ScriptReuse == <<{"Scrape"}, {"Scrape"}, {"Scrape", "Meta"}, {"Meta", "Scrape", "Exemplar"}, {"Scrape", "Truncate"},
-                 {"Truncate", "Restart"}, {"Restart", "Scrape"}, {"Scrape"}>>
+ScriptReuse == <<{"Scrape"}, {"Scrape"}, {"Scrape", "Meta"}, {"Meta", "Scrape", "Exemplar"}, {"Truncate"},
+                 {"Restart"}, {"Scrape"}>>
 
 Allowed == IF nops < Len(Script) THEN Script[nops + 1] ELSE Acts
 
@@ -305,15 +311,15 @@ MetaRec(S, ord) ==
                                ELSE CHOOSE x \in S : \A y \in S : x.ref >= y.ref IN
        <<e>> \o MetaRec(S \ {e}, ord)
 
-Truncate(m, ord) ==
+Truncate(m, ord, k) ==
   /\ "Truncate" \in Allowed /\ m > T /\ m <= now
   /\ T' = m
   /\ IF ~inited
        THEN \* truncateMemory on an uninitialised head only moves the time bounds; no WAL work
             /\ hmin' = m /\ minValid' = m /\ hmax' = Max2(hmax, m) /\ inited' = TRUE
-            /\ hist' = Append(hist, [a |-> "Truncate", m |-> m, ckpt |-> FALSE, ord |-> ord, first |-> first,
+            /\ hist' = Append(hist, [a |-> "Truncate", m |-> m, ckpt |-> FALSE, ord |-> ord, k |-> 0, first |-> first,
                                      last |-> first + Len(segs) - 1])
-            /\ ord = "asc"
+            /\ ord = "asc" /\ k = 0
             /\ UNCHANGED <<segs, first, cp, full, hs, exp, lastRef, lastTr, exNew, now, reused>>
        ELSE
          LET memSkip == hmin >= m                      \* truncateMemory returns early
@@ -322,8 +328,9 @@ Truncate(m, ord) ==
              actual == IF rest = {} THEN m ELSE SetMin({SMin(s) : s \in rest})
              exp1  == [r \in DOMAIN exp \cup Refs(dead) |-> IF r \in Refs(dead) THEN actual ELSE exp[r]]
              walSkip == m <= lastTr
-             L     == first + Len(segs) - 1            \* wlog.Segments: last = the active segment
-             segs1 == Append(segs, <<>>)               \* NextSegment
+             segs0 == segs \o [i \in 1..k |-> <<>>]    \* k x WL.NextSegment before the truncation
+             L     == first + Len(segs0) - 1           \* wlog.Segments: last = the active segment
+             segs1 == Append(segs0, <<>>)              \* NextSegment
              last0 == L - 1
              last1 == first + ((last0 - first) * 2) \div 3
              ckpt  == ~walSkip /\ last0 >= 0 /\ last1 > first
@@ -337,14 +344,14 @@ Truncate(m, ord) ==
             /\ IF memSkip THEN UNCHANGED <<hmin, minValid, hmax>>
                ELSE hmin' = m /\ minValid' = m /\ hmax' = Max2(hmax, m)
             /\ lastTr' = IF walSkip THEN lastTr ELSE m
-            /\ IF walSkip THEN UNCHANGED <<segs, first, cp>> /\ exp' = exp1
+            /\ IF walSkip THEN segs' = segs0 /\ UNCHANGED <<first, cp>> /\ exp' = exp1
                ELSE IF ~ckpt THEN segs' = segs1 /\ UNCHANGED <<first, cp>> /\ exp' = exp1
                ELSE /\ cp' = [idx |-> last1, recs |-> outRecs]
                     /\ segs' = SubSeq(segs1, last1 - first + 2, Len(segs1))
                     /\ first' = last1 + 1
                     /\ exp' = [r \in {x \in DOMAIN exp1 : exp1[x] >= m} |-> exp1[r]]
             /\ (ord = "desc") => (ckpt /\ Cardinality(metas) > 1)     \* the order only matters then
-            /\ hist' = Append(hist, [a |-> "Truncate", m |-> m, ckpt |-> ckpt, ord |-> ord,
+            /\ hist' = Append(hist, [a |-> "Truncate", m |-> m, ckpt |-> ckpt, ord |-> ord, k |-> k,
                                      first |-> IF ckpt THEN last1 + 1 ELSE first,
                                      last |-> IF walSkip THEN L ELSE L + 1])
             /\ UNCHANGED <<full, lastRef, inited, exNew, now, reused>>
@@ -355,7 +362,7 @@ Restart ==
   /\ LET fin == Replay(Log, T) IN
      /\ hs' = fin.hs /\ exp' = fin.exp /\ lastRef' = fin.lastRef
      /\ inited' = fin.inited /\ hmin' = fin.hmin /\ hmax' = fin.hmax
-     /\ exNew' = [l \in Labs |-> LET ts == {x.t : x \in {y \in fin.ex : y.lab = l}} IN IF ts = {} THEN 0 ELSE SetMax(ts)]
+     /\ exNew' = [l \in Labs |-> LET ts == {x.t : x \in {y \in fin.ex \cup fin.racy : y.lab = l}} IN IF ts = {} THEN 0 ELSE SetMax(ts)]
      /\ hist' = Append(hist, [a |-> "Restart", T |-> T, unk |-> fin.unk, nseries |-> Cardinality(fin.hs),
                               lastRef |-> fin.lastRef])
   /\ segs' = Append(segs, <<>>)
@@ -369,7 +376,7 @@ Step1 == \/ \E S \in (SUBSET Labs) \ {{}}, c \in Cuts : Scrape(S, c)
          \/ \E l \in Labs : Meta(l)
          \/ \E l \in Labs, lo \in {0, now - 1} : Delete(l, lo)
          \/ \E l \in Labs : Evict(l)
-         \/ \E m \in (T + 1)..now, ord \in MetaOrds : Truncate(m, ord)
+         \/ \E m \in (T + 1)..now, ord \in MetaOrds, k \in PreCuts : Truncate(m, ord, k)
          \/ Restart
 
 Next == \/ nops < MaxOps /\ ~reused /\ Step1 /\ nops' = nops + 1      \* nothing is explored beyond a ref reuse
@@ -381,8 +388,9 @@ Spec == Init /\ [][Next]_vars
 (* The property.                                                            *)
 
 \* what the two replays reconstruct at or after T
-CTrunc == Content(Replay(Log, T), T)
-CWhole == Content(Replay(full, T), T)
+Racy == Replay(Log, T).racy \cup Replay(full, T).racy
+CTrunc == Content(Replay(Log, T), T, Racy)
+CWhole == Content(Replay(full, T), T, Racy)
 
 \* literal statement, first sentence
 ReplayEquiv == CTrunc = CWhole
@@ -440,7 +448,8 @@ SamplesSurvive == KF_C15_4 \/ (CTrunc.smp = CWhole.smp /\ CTrunc.del = CWhole.de
 
 \* the same formulas with the two replays evaluated once (used by the quick cfgs)
 C15All ==
-  LET L == Log  a == Content(Replay(L, T), T)  b == Content(Replay(full, T), T) IN
+  LET L == Log  rt == Replay(L, T)  rf == Replay(full, T)  ign == rt.racy \cup rf.racy
+      a == Content(rt, T, ign)  b == Content(rf, T, ign) IN
   /\ \A i \in Orphans(L) : ~Live(L[i], T) \/ L[i].k = "X"      \* NoLiveOrphan (= RefClosedOrKF)
   /\ (reused \/ a = b \/ Explained(a, b, L, full))                              \* ReplayEquivOrKF, SamplesSurvive
 
@@ -453,9 +462,10 @@ TypeOK == /\ first >= 0 /\ Len(segs) >= 1 /\ cp.idx < first
 (* Emission.                                                                *)
 
 SegEntries == [i \in 1..Len(segs') |-> [seg |-> first' + i - 1, es |-> Flat(segs'[i])]]
-Final == [T |-> T', tmax |-> MaxT + 3, want |-> Content(Replay(full', T'), T'), got |-> Content(Replay(Log', T'), T'),
-          unk |-> Replay(Log', T').unk,
-          kf |-> Explain(Content(Replay(Log', T'), T'), Content(Replay(full', T'), T'), Log', full', reused'),
+Final == LET rt == Replay(Log', T')  rf == Replay(full', T')  ign == rt.racy \cup rf.racy
+             a == Content(rt, T', ign)  b == Content(rf, T', ign) IN
+         [T |-> T', tmax |-> MaxT + 3, want |-> b, got |-> a, racy |-> ign, unk |-> rt.unk,
+          kf |-> Explain(a, b, Log', full', reused'),
           cp |-> [idx |-> cp'.idx, es |-> Flat(cp'.recs)], segs |-> SegEntries,
           orph |-> [i \in 1..Cardinality(Orphans(Log')) |-> Log'[SeqOfSet(Orphans(Log'))[i]]]]
 LogP == (IF cp'.idx >= 0 THEN Flat(cp'.recs) ELSE <<>>) \o Flat(Flat(segs'))
@@ -464,13 +474,21 @@ Class ==
   LET st == hist'[Len(hist')]
       orph == {OrphanClass(LogP[i], T') : i \in Orphans(LogP)}
       dup == \E i, j \in 1..Len(LogP) : i # j /\ LogP[i].k = "S" /\ LogP[j].k = "S" /\ LogP[i].lab = LogP[j].lab
+      cpE == Flat(cp'.recs)
+      \* series entries of the checkpoint kept by expiry only, entries exactly at the truncation time,
+      \* live samples that depend on a ref which is not in the head, duplicate series inside the checkpoint
+      kexp == Cardinality({cpE[i].ref : i \in {j \in 1..Len(cpE) : cpE[j].k = "S" /\ cpE[j].ref \notin Refs(hs')}})
+      edge == {cpE[i].k : i \in {j \in 1..Len(cpE) : (cpE[j].k \in {"D", "X"} /\ cpE[j].t = T') \/ (cpE[j].k = "T" /\ cpE[j].t2 = T')}}
+      dep  == {LogP[i].k : i \in {j \in 1..Len(LogP) : LogP[j].k # "S" /\ LogP[j].ref \notin Refs(hs') /\ Live(LogP[j], T')}}
+      kinds == {cpE[i].k : i \in 1..Len(cpE)}
+      nmeta == Cardinality({i \in 1..Len(full) : full[i].k = "M"})
   IN IF st.a = "Truncate" THEN <<"Truncate", st.ckpt, st.ord, orph, dup, DOMAIN exp' # {}, Cardinality(hs'),
-                                 Len(Flat(cp'.recs)), hs' = hs>>
-     ELSE IF st.a = "Restart" THEN <<"Restart", st.unk > 0, orph, dup, DOMAIN exp' # {}, Cardinality(hs'), cp.idx >= 0>>
+                                 kexp, edge, dep, kinds, nmeta, hs' = hs>>
+     ELSE IF st.a = "Restart" THEN <<"Restart", st.unk > 0, orph, dup, DOMAIN exp' # {}, Cardinality(hs'), cp.idx >= 0, dep, kinds>>
      ELSE IF st.a = "Scrape" THEN <<"Scrape", Len(st.labs), st.cut, dup, orph, cp.idx >= 0, lastRef' - lastRef, reused'>>
      ELSE <<st.a, orph, dup, cp.idx >= 0>>
 
-Out == PrintT("@@TR " \o ToJson([hist |-> hist', fin |-> Final]))
+Out == PrintT("@@TR " \o ToJson([hist |-> hist', fin |-> Final, cl |-> ToString(Class)]))
 
 Emit ==
   CASE EmitMode = "none" -> TRUE
@@ -481,7 +499,7 @@ Emit ==
 \* simulation: print each walk once, at its End step
 EmitWalk == nops <= MaxOps \/
             PrintT("@@TR " \o ToJson([hist |-> hist,
-                     fin |-> [T |-> T, tmax |-> MaxT + 3, want |-> CWhole, got |-> CTrunc, unk |-> Replay(Log, T).unk, kf |-> Explain(CTrunc, CWhole, Log, full, reused),
+                     fin |-> [T |-> T, tmax |-> MaxT + 3, want |-> CWhole, got |-> CTrunc, racy |-> Racy, unk |-> Replay(Log, T).unk, kf |-> Explain(CTrunc, CWhole, Log, full, reused),
                               cp |-> [idx |-> cp.idx, es |-> Flat(cp.recs)],
                               segs |-> [i \in 1..Len(segs) |-> [seg |-> first + i - 1, es |-> Flat(segs[i])]],
                               orph |-> [i \in 1..Cardinality(Orphans(Log)) |-> Log[SeqOfSet(Orphans(Log))[i]]]]]))
